@@ -44,7 +44,7 @@ pub struct Found {
 /// evaluate one (src, dst) over the given values; returns findings (at most a few per class)
 pub fn eval_pair(src: &DataType, dst: &DataType, vals: &[V], st: Option<&mut Stats>) -> Vec<Found> {
     let mut out: Vec<Found> = vec![];
-    let mut push = |out: &mut Vec<Found>, fp: String, msg: String, value: String| {
+    let push = |out: &mut Vec<Found>, fp: String, msg: String, value: String| {
         if out.iter().filter(|f| f.fp == fp).count() < 2 {
             out.push(Found { fp, msg, value });
         }
@@ -208,7 +208,20 @@ pub fn run(ctx: &Ctx, st: &mut Stats) {
             return;
         }
         let vals = all_values(src);
-        let fs = eval_pair(src, dst, &vals, Some(st));
+        // structural capacity of the target encoding (not a value property): a Dictionary with Int8 keys holds
+        // at most 128 distinct values, a run-end array with Int16 run ends at most 32767 rows -> cast in blocks
+        let block = match dst {
+            DataType::Dictionary(k, _) if **k == DataType::Int8 => 100,
+            DataType::RunEndEncoded(k, _) if k.data_type() == &DataType::Int16 => 30_000,
+            _ => vals.len(),
+        };
+        let mut fs = vec![];
+        for chunk in vals.chunks(block) {
+            fs.extend(eval_pair(src, dst, chunk, Some(st)));
+            if fs.len() > 8 {
+                break;
+            }
+        }
         st.add("exhaustive", vals.len() as u64 * 2, vals.len() as u64);
         st.outcome("exhaustive:pair-explored");
         for (k, f) in fs.into_iter().enumerate() {
